@@ -45,49 +45,67 @@ def test_dirs(patch_text):
     return sorted(sel)
 
 
+def run_tests(wt, env, dirs, xml):
+    rt = sh(f"/venv/bin/python -m pytest -q -p no:cacheprovider --timeout=900 --continue-on-collection-errors --junitxml={xml} {' '.join(dirs)}",
+            cwd=wt, env=env, timeout=7200)
+    res = {}
+    try:
+        for tc in ET.parse(xml).iter("testcase"):
+            name = tc.get("classname") + "::" + tc.get("name")
+            st = "pass"
+            for ch in tc:
+                if ch.tag in ("failure", "error"):
+                    st = "fail"
+                elif ch.tag == "skipped":
+                    st = "skip"
+            res[name] = st
+    except Exception as e:
+        res["__error__"] = repr(e)
+    return res, (rt.stdout.strip().splitlines()[-1] if rt.stdout.strip() else "")
+
+
 def main():
     for sid in sys.argv[1:]:
         d = V / "seeded" / sid
         meta = json.loads((d / "meta.json").read_text())
         wt = f"/tmp/mutv/{sid}-confirm"
-        sh(f"git -C /repo worktree remove --force {wt}")
-        sh(f"mkdir -p /tmp/mutv && git -C /repo worktree add -q --detach {wt} HEAD")
+        sh(f"git -C /repo worktree remove --force {wt}; rm -rf {wt}; git -C /repo worktree prune")
+        r = sh(f"mkdir -p /tmp/mutv && git -C /repo worktree add -q --detach {wt} HEAD")
+        assert os.path.isdir(wt), r.stdout
         env = dict(os.environ, PYTHONPATH=wt, PYTHONDONTWRITEBYTECODE="1", OMP_NUM_THREADS="2", MKL_NUM_THREADS="2")
         out = {}
         try:
             r0 = sh(f"/venv/bin/python {d / 'demo.py'}", cwd=wt, env=env, timeout=1800)
             out["demo_clean_exit"] = r0.returncode
             patch = (d / "patch.diff").read_text()
+            dirs = test_dirs(patch)
+            xml = f"/tmp/mutv/{sid}-junit.xml"
+            clean_res, clean_sum = run_tests(wt, env, dirs, xml)
             ra = sh(f"git -C {wt} apply {d / 'patch.diff'}")
             out["patch_applies"] = ra.returncode == 0
             r1 = sh(f"/venv/bin/python {d / 'demo.py'}", cwd=wt, env=env, timeout=1800)
             out["demo_patched_exit"] = r1.returncode
             out["demo_patched_tail"] = r1.stdout[-600:]
-            dirs = test_dirs(patch)
-            xml = f"/tmp/mutv/{sid}-junit.xml"
-            rt = sh(f"/venv/bin/python -m pytest -q -p no:cacheprovider --timeout=900 --continue-on-collection-errors --junitxml={xml} {' '.join(dirs)}",
-                    cwd=wt, env=env, timeout=7200)
-            res = {}
-            try:
-                for tc in ET.parse(xml).iter("testcase"):
-                    name = tc.get("classname") + "::" + tc.get("name")
-                    st = "pass"
-                    for ch in tc:
-                        if ch.tag in ("failure", "error"):
-                            st = "fail"
-                        elif ch.tag == "skipped":
-                            st = "skip"
-                    res[name] = st
-            except Exception as e:
-                out["junit_error"] = repr(e)
-            mods = {n.split("::")[0] for n in res}
-            relevant = [s for s in STABLE if s.split("::")[0] in mods]
-            broken = [s for s in relevant if res.get(s) != "pass"]
-            out["tests_run"] = f"pytest {' '.join(dirs)}"
-            out["tests_summary"] = rt.stdout.strip().splitlines()[-1] if rt.stdout.strip() else ""
-            out["stable_tests_in_scope"] = len(relevant)
-            out["stable_tests_broken_by_change"] = broken[:20]
-            out["ok"] = (out["demo_clean_exit"] == 0 and out["patch_applies"] and out["demo_patched_exit"] != 0 and not broken and len(relevant) > 0)
+            res, summ = run_tests(wt, env, dirs, xml)
+            # a test counts as broken by the change if it passes on the unmodified tree (same command, same process layout) and not with the change
+            # (test ids with parameters drawn at random at collection time differ between runs: those are compared per
+            #  test function by their failure counts)
+            broken = sorted(n for n, st in clean_res.items() if st == "pass" and n in res and res[n] != "pass")
+            fn = lambda n: n.split("[")[0]
+            only_c = [n for n in clean_res if n not in res]
+            only_p = [n for n in res if n not in clean_res]
+            for f in sorted({fn(n) for n in only_p}):
+                fc = sum(1 for n in only_c if fn(n) == f and clean_res[n] == "fail")
+                fp = sum(1 for n in only_p if fn(n) == f and res[n] == "fail")
+                if fp > fc:
+                    broken.append(f"{f}[random ids]: {fp} failures with the change vs {fc} without")
+            out["tests_run"] = f"pytest {' '.join(dirs)}  (on the unmodified worktree, then with the change)"
+            out["tests_summary_clean"] = clean_sum
+            out["tests_summary_patched"] = summ
+            out["tests_passing_on_clean_tree"] = sum(1 for st in clean_res.values() if st == "pass")
+            out["tests_broken_by_change"] = broken[:20]
+            out["ok"] = (out["demo_clean_exit"] == 0 and out["patch_applies"] and out["demo_patched_exit"] != 0 and not broken
+                         and out["tests_passing_on_clean_tree"] > 0)
         finally:
             sh(f"git -C /repo worktree remove --force {wt}")
             sh(f"rm -f /tmp/mutv/{sid}-junit.xml")
